@@ -122,7 +122,7 @@ def run_prop(prop, tier='quick', seed=0, extra_obs=None, functions=None, extra_a
                 unclaimed += 1
                 continue
             n_proved += 1
-            ob = report.Ob(f"{prop}:{o['oid']}", o['status'], level='proved', backend='z3', detail=o.get('detail'), paths=o.get('paths', 0),
+            ob = report.Ob(f"{prop}:{o['oid']}", o['status'], level=o.get('level', 'proved'), backend='z3' if o.get('level', 'proved') == 'proved' else 'native-exhaustive', detail=o.get('detail'), paths=o.get('paths', 0),
                            seconds=t.get('seconds', 0) / max(1, len(t['obligations'])))
             if o['status'] == 'violated':
                 # counter-state from the verifier; look for a concrete history in the bounded layer
